@@ -23,6 +23,8 @@ NAMES = [
     "\u00e9", "\u00c9", "caf\u00e9", "CAF\u00c9", "\u65e5\u672c", "u65e5", "_u65e5_", "\u26a0\ufe0f_warning",
     "1A", "r_1a", "R_1A", "_1", "1", "9_9",
     "unnamed_field", "_", "__",
+    # names equal to what the collision numbering would hand out
+    "STATUS_2", "status_2", "a_dot_b_2", "content_2", "ws_2", "x_2", "X", "x", "X_2", "x_3", "unnamed_field_2",
 ] + [s.upper() for s in STRUCTURAL] + STRUCTURAL + [s.upper().replace("-", "_") for s in STRUCTURAL if "-" in s] + ["Field", "Root", "Ws", "number", "string", "boolean", "digit"]
 
 REGEXES = [
@@ -71,6 +73,10 @@ def cases(seed: int, thorough: bool):
         out.append(("api", "S", [(n, ["REQ"])]))
         out.append(("fields", "SCH", [(n, ["REQ"])]))
         out.append(("contract", "T", [(n, ["REQ"])]))
+    for trio in (["STATUS", "status", "STATUS_2"], ["STATUS_2", "status", "STATUS"], ["CONTENT", "content_2"], ["content_2", "CONTENT"], ["A.B", "a_dot_b", "a_dot_b_2"], ["X", "x", "x_2", "X_2", "x_3"], ["WS", "ws_2", "WS_2"], ["_", "__", "unnamed_field_2", "unnamed_field"]):
+        for perm in itertools.permutations(trio) if len(trio) <= 4 else [trio, trio[::-1]]:
+            out.append(("api", "S", [(n, ["REQ"]) for n in perm]))
+    out.append(("contract", "T", [(n, ["REQ"]) for n in ("STATUS", "status", "STATUS_2")]))
     pairs = list(itertools.combinations(NAMES, 2))
     rng.shuffle(pairs)
     for a, b in pairs[: (len(pairs) if thorough else 700)]:
